@@ -49,8 +49,8 @@ theorem indexOf_fast_eq_generic (a : Dense) (h : a.Inv) (hg : a.stdGuard = true)
       rw [List.drop_eq_getElem_cons hk, hv]
       simp only [scanFirst, indexOfGeneric, slotVal, h1, h2, Bool.true_and]
       by_cases he : eq v = true
-      · rw [if_pos he, if_pos he]
-      · rw [if_neg he, if_neg he]; exact ih (n + 1) (by omega)
+      · simp only [he, if_true]
+      · simp only [he, if_false, Bool.false_eq_true]; exact ih (n + 1) (by omega)
   exact key (L - n) n (by omega)
 
 /-- includes (SameValueZero, every index read with Get): fast = generic. -/
@@ -177,6 +177,344 @@ theorem fill_fast_eq_generic (v : Val) (pa : Nat → Option Bool) (c : Nat) :
         exact ⟨u, by simp [List.getElem_set_ne hjk, hu]⟩
     have := ih { a with values := a.values.set k (some (.plain v)) } (k + 1) hp' (by simp; omega)
     simpa using this
+
+/-! ## copyWithin -/
+
+private theorem cwFwd_get (c : Nat) : ∀ (vals : List (Option Elem)) (f t : Nat),
+    (t ≤ f ∨ f + c ≤ t) → t + c ≤ vals.length → f + c ≤ vals.length →
+    (cwFwd vals f t c).length = vals.length ∧
+    ∀ i, (cwFwd vals f t c)[i]? = if t ≤ i ∧ i < t + c then (if f + (i - t) < vals.length then some ((vals[f + (i - t)]?).join) else none) else vals[i]? := by
+  induction c with
+  | zero =>
+    intro vals f t _ _ _
+    refine ⟨rfl, fun i => ?_⟩
+    have : ¬ (t ≤ i ∧ i < t + 0) := by omega
+    simp only [cwFwd]
+    rw [if_neg this]
+  | succ c ih =>
+    intro vals f t hcond ht hf
+    have hlen' : (vals.set t ((vals[f]?).join)).length = vals.length := by simp
+    obtain ⟨l1, g1⟩ := ih (vals.set t ((vals[f]?).join)) (f + 1) (t + 1) (by omega) (by rw [hlen']; omega) (by rw [hlen']; omega)
+    refine ⟨by simp only [cwFwd]; rw [l1, hlen'], fun i => ?_⟩
+    simp only [cwFwd]
+    rw [g1 i, hlen']
+    by_cases h1 : t + 1 ≤ i ∧ i < t + 1 + c
+    · have h2 : t ≤ i ∧ i < t + (c + 1) := by omega
+      have h3 : f + 1 + (i - (t + 1)) = f + (i - t) := by omega
+      have hne : ¬ t = f + (i - t) := by omega
+      simp only [h1, h2, and_self, if_true, h3, List.getElem?_set, hne, if_false]
+    · simp only [h1, if_false]
+      by_cases h4 : i = t
+      · subst h4
+        have h2 : i ≤ i ∧ i < i + (c + 1) := by omega
+        have hfl : f < vals.length := by omega
+        have hil : i < vals.length := by omega
+        simp [h2, List.getElem?_set, hil, hfl]
+      · have h2 : ¬ (t ≤ i ∧ i < t + (c + 1)) := by omega
+        have hne : ¬ t = i := fun e => h4 e.symm
+        simp only [h2, if_false, List.getElem?_set, hne]
+
+private theorem cwBwd_get (c : Nat) : ∀ (vals : List (Option Elem)) (f t : Nat),
+    f < t → t + c ≤ vals.length →
+    (cwBwd vals f t c).length = vals.length ∧
+    ∀ i, (cwBwd vals f t c)[i]? = if t ≤ i ∧ i < t + c then (if f + (i - t) < vals.length then some ((vals[f + (i - t)]?).join) else none) else vals[i]? := by
+  induction c with
+  | zero =>
+    intro vals f t _ _
+    refine ⟨rfl, fun i => ?_⟩
+    have : ¬ (t ≤ i ∧ i < t + 0) := by omega
+    simp only [cwBwd]
+    rw [if_neg this]
+  | succ c ih =>
+    intro vals f t hft ht
+    have hlen' : (vals.set (t + c) ((vals[f + c]?).join)).length = vals.length := by simp
+    obtain ⟨l1, g1⟩ := ih (vals.set (t + c) ((vals[f + c]?).join)) f t hft (by rw [hlen']; omega)
+    refine ⟨by simp only [cwBwd]; rw [l1, hlen'], fun i => ?_⟩
+    simp only [cwBwd]
+    rw [g1 i, hlen']
+    by_cases h1 : t ≤ i ∧ i < t + c
+    · have h2 : t ≤ i ∧ i < t + (c + 1) := by omega
+      have hne : ¬ t + c = f + (i - t) := by omega
+      simp only [h1, h2, and_self, if_true, List.getElem?_set, hne, if_false]
+    · simp only [h1, if_false]
+      by_cases h4 : i = t + c
+      · subst h4
+        have h2 : t ≤ t + c ∧ t + c < t + (c + 1) := by omega
+        have h3 : f + (t + c - t) = f + c := by omega
+        have hfl : f + c < vals.length := by omega
+        have hil : t + c < vals.length := by omega
+        simp [h2, h3, List.getElem?_set, hil, hfl]
+      · have h2 : ¬ (t ≤ i ∧ i < t + (c + 1)) := by omega
+        have hne : ¬ t + c = i := fun e => h4 e.symm
+        simp only [h2, if_false, List.getElem?_set, hne]
+
+/-- copyWithin: Go's `copy` on the backing slice (memmove) equals the generic element-by-element loop
+with its direction choice, for every `from`, `to`, `count` within the array. -/
+theorem copyWithin_fast_eq_generic (vals : List (Option Elem)) (from_ to count : Nat)
+    (hf : from_ + count ≤ vals.length) (ht : to + count ≤ vals.length) :
+    memmove vals from_ to count = copyWithinGeneric vals from_ to count := by
+  have key : ∀ (res : List (Option Elem)), res.length = vals.length →
+      (∀ i, res[i]? = if to ≤ i ∧ i < to + count then (if from_ + (i - to) < vals.length then some ((vals[from_ + (i - to)]?).join) else none) else vals[i]?) →
+      memmove vals from_ to count = res := by
+    intro res hl hg
+    apply List.ext_getElem?
+    intro i
+    rw [hg i]
+    unfold memmove
+    by_cases hi : i < vals.length
+    · simp only [List.getElem?_map, List.getElem?_range hi, Option.map_some]
+      by_cases h1 : to ≤ i ∧ i < to + count
+      · have : from_ + (i - to) < vals.length := by omega
+        simp only [h1, and_self, if_true, this]
+      · simp only [h1, if_false]
+        rw [List.getElem?_eq_getElem hi]; rfl
+    · have h1 : ¬ (to ≤ i ∧ i < to + count) := by omega
+      simp only [h1, if_false]
+      rw [List.getElem?_eq_none (by simpa using hi), List.getElem?_eq_none (by omega)]
+  unfold copyWithinGeneric
+  split
+  · next hb =>
+    obtain ⟨l, g⟩ := cwBwd_get count vals from_ to hb.1 ht
+    exact key _ l g
+  · next hb =>
+    obtain ⟨l, g⟩ := cwFwd_get count vals from_ to (by omega) ht hf
+    exact key _ l g
+
+/-! ## splice -/
+
+private theorem setExt_get (l : List (Option Elem)) (i : Nat) (x : Option Elem) :
+    (setExt l i x).length = max l.length (i + 1) ∧
+    ∀ j, (setExt l i x)[j]? = if j = i then some x else if j < l.length then l[j]? else if j < i then some none else none := by
+  unfold setExt
+  by_cases hi : i < l.length
+  · simp only [hi, if_true]
+    refine ⟨by simp; omega, fun j => ?_⟩
+    rw [List.getElem?_set]
+    by_cases hji : j = i
+    · subst hji; simp [hi]
+    · have : ¬ i = j := fun e => hji e.symm
+      simp only [this, if_false, hji]
+      by_cases hjl : j < l.length
+      · simp [hjl]
+      · have : ¬ j < i := by omega
+        simp [hjl, this, List.getElem?_eq_none (Nat.le_of_not_lt hjl)]
+  · simp only [hi, if_false]
+    refine ⟨by simp; omega, fun j => ?_⟩
+    by_cases hji : j = i
+    · subst hji
+      have hlen : (l ++ List.replicate (j - l.length) none).length = j := by simp; omega
+      rw [List.getElem?_append_right (by omega), hlen]
+      simp
+    · simp only [hji, if_false]
+      by_cases hjl : j < l.length
+      · simp only [hjl, if_true]
+        rw [List.append_assoc, List.getElem?_append_left hjl]
+      · simp only [hjl, if_false]
+        by_cases hj2 : j < i
+        · simp only [hj2, if_true]
+          rw [List.getElem?_append_left (by simp; omega), List.getElem?_append_right (by omega)]
+          simp [List.getElem?_replicate]; omega
+        · simp only [hj2, if_false]
+          rw [List.getElem?_eq_none (by simp; omega)]
+
+private theorem writeItems_get (items : List Val) : ∀ (vals : List (Option Elem)) (start : Nat), start ≤ vals.length →
+    (writeItems vals start items).length = max vals.length (start + items.length) ∧
+    ∀ j, (writeItems vals start items)[j]? =
+      if start ≤ j ∧ j < start + items.length then (items[j - start]?).map (fun v => some (.plain v)) else vals[j]? := by
+  induction items with
+  | nil =>
+    intro vals start _
+    refine ⟨by simp [writeItems]; omega, fun j => ?_⟩
+    have : ¬ (start ≤ j ∧ j < start + ([] : List Val).length) := by simp
+    simp only [writeItems]; rw [if_neg this]
+  | cons v t ih =>
+    intro vals start hs
+    obtain ⟨l1, g1⟩ := setExt_get vals start (some (.plain v))
+    obtain ⟨l2, g2⟩ := ih (setExt vals start (some (.plain v))) (start + 1) (by rw [l1]; omega)
+    refine ⟨by simp only [writeItems, List.length_cons]; rw [l2, l1]; omega, fun j => ?_⟩
+    simp only [writeItems]
+    rw [g2 j, g1 j]
+    by_cases h1 : start + 1 ≤ j ∧ j < start + 1 + t.length
+    · have h2 : start ≤ j ∧ j < start + (v :: t).length := by simp; omega
+      have h3 : j - start = (j - (start + 1)) + 1 := by omega
+      simp only [h1, h2, and_self, if_true, h3, List.getElem?_cons_succ]
+    · simp only [h1, if_false]
+      by_cases h4 : j = start
+      · subst h4
+        have h2 : j ≤ j ∧ j < j + (v :: t).length := by simp
+        simp [h2]
+      · have h2 : ¬ (start ≤ j ∧ j < start + (v :: t).length) := by simp; omega
+        simp only [h4, h2, if_false]
+        by_cases hjl : j < vals.length
+        · simp [hjl]
+        · have : ¬ j < start := by omega
+          simp [hjl, this, List.getElem?_eq_none (Nat.le_of_not_lt hjl)]
+
+private theorem bwdExt_get (c : Nat) : ∀ (vals : List (Option Elem)) (f t : Nat), f < t → f + c ≤ vals.length →
+    (bwdExt vals f t c).length = (if c = 0 then vals.length else max vals.length (t + c)) ∧
+    ∀ j, (bwdExt vals f t c)[j]? =
+      if t ≤ j ∧ j < t + c then some ((vals[f + (j - t)]?).join)
+      else if j < vals.length then vals[j]? else if c ≠ 0 ∧ j < t then some none else none := by
+  induction c with
+  | zero =>
+    intro vals f t _ _
+    refine ⟨by simp [bwdExt], fun j => ?_⟩
+    have h1 : ¬ (t ≤ j ∧ j < t + 0) := by omega
+    simp only [bwdExt]
+    rw [if_neg h1]
+    by_cases hjl : j < vals.length
+    · simp [hjl]
+    · simp [hjl, List.getElem?_eq_none (Nat.le_of_not_lt hjl)]
+  | succ c ih =>
+    intro vals f t hft hf
+    obtain ⟨l1, g1⟩ := setExt_get vals (t + c) ((vals[f + c]?).join)
+    have hl1 : vals.length ≤ (setExt vals (t + c) ((vals[f + c]?).join)).length := by rw [l1]; omega
+    obtain ⟨l2, g2⟩ := ih (setExt vals (t + c) ((vals[f + c]?).join)) f t hft (by omega)
+    constructor
+    · simp only [bwdExt]
+      rw [l2, l1]
+      by_cases hc : c = 0
+      · subst hc; simp
+      · simp only [hc, if_false, Nat.succ_ne_zero]; omega
+    · intro j
+      simp only [bwdExt]
+      rw [g2 j]
+      by_cases h1 : t ≤ j ∧ j < t + c
+      · have h2 : t ≤ j ∧ j < t + (c + 1) := by omega
+        simp only [h1, h2, and_self, if_true]
+        -- the source slot f+(j-t) < t+c has not been overwritten
+        rw [g1 (f + (j - t))]
+        have hne : ¬ f + (j - t) = t + c := by omega
+        have hlt : f + (j - t) < vals.length := by omega
+        simp only [hne, if_false, hlt, if_true]
+      · simp only [h1, if_false]
+        rw [l1, g1 j]
+        by_cases h4 : j = t + c
+        · subst h4
+          have h2 : t ≤ t + c ∧ t + c < t + (c + 1) := by omega
+          have h3 : f + (t + c - t) = f + c := by omega
+          have : t + c < max vals.length (t + c + 1) := by omega
+          simp [h2, h3, this]
+        · have h2 : ¬ (t ≤ j ∧ j < t + (c + 1)) := by omega
+          simp only [h2, if_false, h4]
+          by_cases hjl : j < vals.length
+          · have : j < max vals.length (t + c + 1) := by omega
+            simp [hjl, this]
+          · simp only [hjl, if_false]
+            by_cases hjm : j < max vals.length (t + c + 1)
+            · have hjt : j < t + c := by omega
+              have hjt2 : j < t := by omega
+              simp [hjm, hjt, hjt2]
+            · have hjt : ¬ j < t + c := by omega
+              have hjt2 : ¬ j < t := by omega
+              by_cases hc : c = 0
+              · simp [hjm, hjt, hjt2, hc]
+              · simp [hjm, hjt, hjt2, hc]
+
+/-- splice: the fast path's new `values` (`values[:start] ++ items ++ values[start+del:]`) is what the
+generic element moves + truncation produce, in all three cases (shrinking, growing, same size). -/
+theorem splice_fast_eq_generic (vals : List (Option Elem)) (start del : Nat) (items : List Val)
+    (hsd : start + del ≤ vals.length) :
+    spliceFast vals start del items = spliceGeneric vals start del items := by
+  apply List.ext_getElem?
+  intro j
+  have hfast : (spliceFast vals start del items)[j]? =
+      if j < start then vals[j]?
+      else if j < start + items.length then (items[j - start]?).map (fun v => some (.plain v))
+      else vals[j - items.length + del]? := by
+    unfold spliceFast
+    by_cases h1 : j < start
+    · simp only [h1, if_true]
+      rw [List.append_assoc, List.getElem?_append_left (by simp; omega), List.getElem?_take_of_lt h1]
+    · simp only [h1, if_false]
+      have hts : (vals.take start).length = start := by simp; omega
+      by_cases h2 : j < start + items.length
+      · simp only [h2, if_true]
+        rw [List.append_assoc, List.getElem?_append_right (by omega), hts,
+          List.getElem?_append_left (by simp; omega), List.getElem?_map]
+      · simp only [h2, if_false]
+        rw [List.getElem?_append_right (by simp; omega)]
+        simp only [List.length_append, List.length_map, hts, List.getElem?_drop]
+        congr 1; omega
+  rw [hfast]
+  unfold spliceGeneric
+  simp only
+  by_cases hlt : items.length < del
+  · -- shrinking
+    simp only [hlt, if_true]
+    obtain ⟨cl, cg⟩ := cwFwd_get (vals.length - del - start) vals (start + del) (start + items.length)
+      (by omega) (by omega) (by omega)
+    have hM : start ≤ ((cwFwd vals (start + del) (start + items.length) (vals.length - del - start)).take (vals.length - del + items.length)).length := by
+      simp [cl]; omega
+    obtain ⟨_, wg⟩ := writeItems_get items _ start hM
+    rw [wg j]
+    by_cases h1 : j < start
+    · have : ¬ (start ≤ j ∧ j < start + items.length) := by omega
+      simp only [h1, if_true, this, if_false]
+      rw [List.getElem?_take_of_lt (by omega), cg j]
+      have : ¬ (start + items.length ≤ j ∧ j < start + items.length + (vals.length - del - start)) := by omega
+      rw [if_neg this]
+    · simp only [h1, if_false]
+      by_cases h2 : j < start + items.length
+      · have : start ≤ j ∧ j < start + items.length := by omega
+        rw [if_pos h2, if_pos this]
+      · have : ¬ (start ≤ j ∧ j < start + items.length) := by omega
+        rw [if_neg h2, if_neg this]
+        by_cases h3 : j < vals.length - del + items.length
+        · rw [List.getElem?_take_of_lt h3, cg j]
+          have h4 : start + items.length ≤ j ∧ j < start + items.length + (vals.length - del - start) := by omega
+          have h5 : start + del + (j - (start + items.length)) = j - items.length + del := by omega
+          have h6 : j - items.length + del < vals.length := by omega
+          rw [if_pos h4, h5, if_pos h6, List.getElem?_eq_getElem h6]; rfl
+        · rw [List.getElem?_eq_none (l := vals) (by omega), List.getElem?_eq_none (by rw [List.length_take, cl]; omega)]
+  · simp only [hlt, if_false]
+    by_cases hgt : items.length > del
+    · -- growing
+      simp only [hgt, if_true]
+      obtain ⟨bl, bg⟩ := bwdExt_get (vals.length - del - start) vals (start + del) (start + items.length) (by omega) (by omega)
+      have hM : start ≤ (bwdExt vals (start + del) (start + items.length) (vals.length - del - start)).length := by
+        rw [bl]; split <;> omega
+      obtain ⟨_, wg⟩ := writeItems_get items _ start hM
+      rw [wg j]
+      by_cases h1 : j < start
+      · have : ¬ (start ≤ j ∧ j < start + items.length) := by omega
+        simp only [h1, if_true, this, if_false]
+        rw [bg j]
+        have h2 : ¬ (start + items.length ≤ j ∧ j < start + items.length + (vals.length - del - start)) := by omega
+        have h3 : j < vals.length := by omega
+        simp only [h2, if_false, h3, if_true]
+      · simp only [h1, if_false]
+        by_cases h2 : j < start + items.length
+        · have : start ≤ j ∧ j < start + items.length := by omega
+          rw [if_pos h2, if_pos this]
+        · have : ¬ (start ≤ j ∧ j < start + items.length) := by omega
+          rw [if_neg h2, if_neg this]
+          rw [bg j]
+          by_cases h4 : j < start + items.length + (vals.length - del - start)
+          · have h5 : start + items.length ≤ j ∧ j < start + items.length + (vals.length - del - start) := by omega
+            have h6 : start + del + (j - (start + items.length)) = j - items.length + del := by omega
+            have h7 : j - items.length + del < vals.length := by omega
+            rw [if_pos h5, h6, List.getElem?_eq_getElem h7]; rfl
+          · have h5 : ¬ (start + items.length ≤ j ∧ j < start + items.length + (vals.length - del - start)) := by omega
+            have h6 : ¬ j < vals.length := by omega
+            have h7 : ¬ (vals.length - del - start ≠ 0 ∧ j < start + items.length) := by omega
+            rw [if_neg h5, if_neg h6, if_neg h7, List.getElem?_eq_none (by omega)]
+    · -- same size: only the items are overwritten
+      simp only [hgt, if_false]
+      have heq : items.length = del := by omega
+      obtain ⟨_, wg⟩ := writeItems_get items vals start (by omega)
+      rw [wg j]
+      by_cases h1 : j < start
+      · have : ¬ (start ≤ j ∧ j < start + items.length) := by omega
+        simp only [h1, if_true, this, if_false]
+      · simp only [h1, if_false]
+        by_cases h2 : j < start + items.length
+        · have : start ≤ j ∧ j < start + items.length := by omega
+          rw [if_pos h2, if_pos this]
+        · have : ¬ (start ≤ j ∧ j < start + items.length) := by omega
+          rw [if_neg h2, if_neg this]
+          have : j - items.length + del = j := by omega
+          rw [this]
 
 /-! ## pop -/
 
@@ -314,13 +652,51 @@ theorem pop_fast_refines (a : Dense) (h : a.Inv) (r : Dense × Bool) (hr : a.pop
       · rfl
       · simp only [Bool.not_true, Bool.false_eq_true, if_false, Nat.le_refl, ge_iff_le, if_true]
         refine Prod.ext ?_ rfl
-        exact SpecArray.ext' rfl (hal.trans h0).symm rfl rfl
+        exact SpecArray.ext' rfl (hal.trans h0).symm (hlw.trans hw2).symm rfl
     rw [hsl]
     cases hw : a.lenW
     · simp only [hw, Bool.false_eq_true, if_false, Option.some.injEq] at hr
       subst hr; exact ⟨rfl, h⟩
     · simp only [hw, if_true, Option.some.injEq] at hr
       subst hr; exact ⟨rfl, h⟩
+
+/-- `Array.prototype.pop` as a whole (patched fast path, bail-out to the generic path, sparse storage):
+refines the spec's pop and keeps `Good` — so pop can be interleaved with the operations of
+`history_refines`. -/
+theorem pop_refines (s : Store) (hg : s.Good) :
+    (((s.pop true).1).abs, (s.pop true).2) = s.abs.pop ∧ ((s.pop true).1).Good := by
+  cases s with
+  | sparse a => exact pop_generic_refines (.sparse a) hg
+  | dense a =>
+    cases hp : a.popFast true with
+    | none =>
+      have : (Store.dense a).pop true = (Store.dense a).popGeneric := by simp [Store.pop, hp]
+      rw [this]; exact pop_generic_refines (.dense a) hg
+    | some r =>
+      have : (Store.dense a).pop true = (.dense r.1, r.2) := by simp [Store.pop, hp]
+      rw [this]
+      obtain ⟨r1, r2⟩ := pop_fast_refines a hg.inv r hp
+      refine ⟨r1, r2, ?_⟩
+      -- the elements of the result are elements of `a`: its `values` are a prefix of `a.values`
+      have hpre : r.1.values = a.values ∨ ∃ n, r.1.values = a.values.take n := by
+        unfold Dense.popFast at hp
+        by_cases hpos : a.length > 0
+        · simp only [hpos, if_true] at hp
+          cases hs : a.slot (a.length - 1) with
+          | none => simp [hs] at hp
+          | some e =>
+            cases e with
+            | prop p => simp [hs] at hp
+            | plain v =>
+              simp only [hs] at hp
+              cases hw : a.lenW <;> simp [hw] at hp <;> (subst hp; exact Or.inr ⟨_, rfl⟩)
+        · simp only [hpos, if_false] at hp
+          cases hw : a.lenW <;> simp [hw] at hp <;> (subst hp; exact Or.inl rfl)
+      intro e he
+      have he' : some e ∈ r.1.values := he
+      rcases hpre with h | ⟨n, h⟩
+      · rw [h] at he'; exact hg.wf e he'
+      · rw [h] at he'; exact hg.wf e (List.mem_of_mem_take he')
 
 /-- the code as it is today (`decr = false`) breaks `Inv` — witness of the finding
 `pop-fastpath-objCount-not-decremented`: `[1,2,3].pop()` leaves `objCount = 3` with two elements. -/
